@@ -306,6 +306,8 @@ pub struct Env {
     pub dir: PathBuf,
     pub keys: Vec<Key>,
     pub fudge: u16,
+    /// `allow_update` of the store configuration (true unless a check sets it otherwise)
+    pub allow_update: std::cell::Cell<bool>,
 }
 
 pub fn scratch_root(prop: &str) -> PathBuf {
@@ -318,7 +320,7 @@ impl Env {
     pub fn new(dir: PathBuf, keys: Vec<Key>) -> Env {
         let _ = std::fs::remove_dir_all(&dir);
         std::fs::create_dir_all(&dir).expect("scratch dir");
-        let e = Env { dir, keys, fudge: 300 };
+        let e = Env { dir, keys, fudge: 300, allow_update: std::cell::Cell::new(true) };
         e.write_keys();
         e
     }
@@ -337,7 +339,7 @@ impl Env {
         SqliteConfig {
             zone_path: "z.zone".into(),
             journal_path: journal.into(),
-            allow_update: true,
+            allow_update: self.allow_update.get(),
             tsig_keys: self
                 .keys
                 .iter()
